@@ -39,6 +39,9 @@ BUILT = {
  'C12': dict(technique='bounded exhaustive enumeration (base text x insertion point at every depth x unknown item from a recursive generator, singly and in pairs, plus a nesting-depth family) with a metamorphic oracle checked against the reference parser; every text replayed on the real library with and without the flag',
              text='9 accepted base texts on a nested schema x every item boundary (before each item, end of each section body, end of text) x ~1700 well-formed unknown items (assignment, list, append, call, plain/titled sections nested to depth 2, 3 thorough; inner names include declared names with unconvertible values) and pairs; unknown sections nested 1..10, 10^2..10^4 (10^5 thorough) deep. With the flag: same return code and dump as the base text, no diagnostic; without: rejected with a diagnostic.',
              note='trusted: RefParser for the base texts and for the well-formedness of generated items (self-check at start)', ref='5/C12'),
+ 'C13': dict(technique='bounded exhaustive enumeration of include trees (every contiguous run of items moved into a file, recursively; chains of every depth up to limit+2; every placement; error injected at every file and after every return; fail^k histories) against the reference parser with a file model; every configuration replayed on the real library',
+             text='236 accepted texts of <= 4 items x every contiguous run moved into an include file (recursively to depth 2, 4 thorough) x 5 placements (relative, absolute, search-path directory 1 / 2, absolute with a search path) x an error at the end / start of each file and after each include returns; chains of depth 1..12 (limit 10); missing / directory / self / mutual / wrong-arity targets; k = 0..12 failing includes of 7 kinds followed by a succeeding one and a full-depth chain. Dump equals the flat text; diagnostics name the right file and line on both sides; failures are reported errors; include stack, FILEs and descriptors are back afterwards.',
+             note='trusted: reftext.Files (include == tokens spliced in place); fixture files live under /verif/build/fx and are wiped per case', ref='5/C13'),
 }
 
 checks = []
